@@ -101,19 +101,30 @@ Proof.
 Qed.
 
 (* ---------- C18 ---------- *)
-Theorem sa_line_oracle_free pi pi' t : admissible pi -> admissible pi' -> sa_line pi t = sa_line pi' t.
+Lemma sorted_iter_oracle_free pi pi' ins : admissible pi -> admissible pi' ->
+  sort_str (hs_iter pi ins) = sort_str (hs_iter pi' ins).
 Proof.
-  intros H H'. unfold sa_line, hs_iter. do 2 f_equal. apply sort_str_perm.
+  intros H H'. unfold hs_iter. apply sort_str_perm.
   eapply Permutation_trans; [apply H | apply Permutation_sym, H'].
 Qed.
 
-Theorem sorted_imports_oracle_free pi pi' t : admissible pi -> admissible pi' ->
-  sqlalchemy_imports_sorted_part pi t = sqlalchemy_imports_sorted_part pi' t.
+Theorem sa_line_oracle_free pi pi' t : admissible pi -> admissible pi' -> sa_line pi t = sa_line pi' t.
+Proof. intros H H'. unfold sa_line. now rewrite (sorted_iter_oracle_free pi pi' _ H H'). Qed.
+
+Theorem datetime_line_oracle_free pi pi' t : admissible pi -> admissible pi' -> datetime_line pi t = datetime_line pi' t.
+Proof. intros H H'. unfold datetime_line. now rewrite (sorted_iter_oracle_free pi pi' _ H H'). Qed.
+
+(* both import blocks are functions of the table alone: no hash iteration order can be observed in them *)
+Theorem imports_oracle_free pa pa' pd pd' t :
+  admissible pa -> admissible pa' -> admissible pd -> admissible pd' ->
+  sqlalchemy_imports pa pd t = sqlalchemy_imports pa' pd' t /\ sqlmodel_imports pd t = sqlmodel_imports pd' t.
 Proof.
-  intros H H'. unfold sqlalchemy_imports_sorted_part. now rewrite (sa_line_oracle_free pi pi' t H H').
+  intros Ha Ha' Hd Hd'. unfold sqlalchemy_imports, sqlmodel_imports.
+  rewrite (datetime_line_oracle_free pd pd' t Hd Hd'), (sa_line_oracle_free pa pa' t Ha Ha').
+  split; reflexivity.
 Qed.
 
-(* the table of DESIGN D5: one date, one time, one timestamp column *)
+(* the table of DESIGN D5 (one date, one time, one timestamp column): the former refutation witness *)
 Definition d5_table : table_def :=
   mkTable "event" None
     [mkCol "id" (TSimple Integer) false None None None None None None;
@@ -122,52 +133,10 @@ Definition d5_table : table_def :=
      mkCol "ts" (TSimple Timestamp) false None None None None None None]
     [CPrimaryKey false ["id"]].
 
-Theorem datetime_imports_refuted :
-  exists t pi pi', admissible pi /\ admissible pi' /\ datetime_line pi t <> datetime_line pi' t.
-Proof.
-  exists d5_table, id_oracle, rev_oracle. split; [apply id_admissible|]. split; [apply rev_admissible|].
-  vm_compute. discriminate.
-Qed.
-
-Theorem sqlalchemy_imports_refuted :
-  exists t pi pi', admissible pi /\ admissible pi' /\
-    sqlalchemy_imports id_oracle pi t <> sqlalchemy_imports id_oracle pi' t.
-Proof.
-  exists d5_table, id_oracle, rev_oracle. split; [apply id_admissible|]. split; [apply rev_admissible|].
-  vm_compute. discriminate.
-Qed.
-Theorem sqlmodel_imports_refuted :
-  exists t pi pi', admissible pi /\ admissible pi' /\ sqlmodel_imports pi t <> sqlmodel_imports pi' t.
-Proof.
-  exists d5_table, id_oracle, rev_oracle. split; [apply id_admissible|]. split; [apply rev_admissible|].
-  vm_compute. discriminate.
-Qed.
-
-(* outside the known class (at most one name in the set) the line is oracle free *)
-Lemma perm_short {A} (l l' : list A) : Permutation l l' -> (List.length l' <= 1)%nat -> l = l'.
-Proof.
-  intros P L. destruct l' as [|a [|b r]]; cbn in L; try lia.
-  - apply Permutation_sym, Permutation_nil in P. exact P.
-  - apply Permutation_sym, Permutation_length_1_inv in P. exact P.
-Qed.
-
-Theorem datetime_line_oracle_free_outside_known pi pi' t :
-  admissible pi -> admissible pi' -> known_C18_datetime t = false ->
-  datetime_line pi t = datetime_line pi' t.
-Proof.
-  intros H H' K. unfold known_C18_datetime in K. apply Nat.ltb_ge in K.
-  unfold datetime_line, hs_iter.
-  rewrite (perm_short _ _ (H _) K), (perm_short _ _ (H' _) K). reflexivity.
-Qed.
-
-Theorem imports_oracle_free_outside_known pa pa' pd pd' t :
-  admissible pa -> admissible pa' -> admissible pd -> admissible pd' -> known_C18_datetime t = false ->
-  sqlalchemy_imports pa pd t = sqlalchemy_imports pa' pd' t /\ sqlmodel_imports pd t = sqlmodel_imports pd' t.
-Proof.
-  intros Ha Ha' Hd Hd' K. unfold sqlalchemy_imports, sqlmodel_imports.
-  rewrite (datetime_line_oracle_free_outside_known pd pd' t Hd Hd' K), (sa_line_oracle_free pa pa' t Ha Ha').
-  split; reflexivity.
-Qed.
+Example d5_fixed :
+  datetime_line id_oracle d5_table = ["from datetime import date, datetime, time"]
+  /\ datetime_line rev_oracle d5_table = ["from datetime import date, datetime, time"].
+Proof. split; vm_compute; reflexivity. Qed.
 
 (* ---------- SeaORM: the observations its code makes on hash containers ---------- *)
 Lemma mem_str_perm x l l' : Permutation l l' -> mem_str x l = mem_str x l'.
@@ -257,6 +226,16 @@ Proof.
   intro H. exists (sort_str (hs_iter pi (sa_inserts t))). split; [reflexivity|]. split.
   - eapply Permutation_trans; [apply sort_str_permutation | apply H].
   - apply sort_str_sorted.
+Qed.
+
+Theorem datetime_line_bytewise_sorted pi t : admissible pi ->
+  exists l, Permutation l (hs_of_inserts (dt_inserts t) []) /\ StronglySorted bytewise_le l
+            /\ datetime_line pi t = match l with [] => [] | _ => ["from datetime import " +++ join ", " l] end.
+Proof.
+  intro H. exists (sort_str (hs_iter pi (dt_inserts t))). split; [|split].
+  - eapply Permutation_trans; [apply sort_str_permutation | apply H].
+  - apply sort_str_sorted.
+  - unfold datetime_line. destruct (sort_str (hs_iter pi (dt_inserts t))); reflexivity.
 Qed.
 
 (* upper-case names sort before the lower-case helper: the witness a case-insensitive key would reorder *)
